@@ -282,8 +282,9 @@ impl Strategy {
         };
 
         if let Some(jitter) = self.options.jitter {
-            let jitter =
-                rng.sample(Uniform::new(1.0 - jitter, 1.0 + jitter).expect("Invalid jitter"));
+            let jitter = rng.sample(
+                Uniform::new_inclusive(1.0 - jitter, 1.0 + jitter).expect("Invalid jitter"),
+            );
             let jittered_step_size = step_size * jitter;
             *hamiltonian.step_size_mut() = jittered_step_size;
         } else {
